@@ -925,25 +925,39 @@ def isWordTok (t : Tok) : Bool :=
   t.cls == ['i'] || t.cls == ['r'] || t.cls == ['l'] || t.isDoc || t.isP '#' ||
   (match t.cls with | 'L' :: _ => true | _ => false)
 
+def kwMacroRules : List Char := ['m','a','c','r','o','_','r','u','l','e','s']
+def kwLazyStatic : List Char := ['l','a','z','y','_','s','t','a','t','i','c']
+
 /-- Rules 1 and 6 for `;`: an empty statement (`;` directly after `{`, or followed by another `;`),
-and the `;` that ends a `return` / `break` / `continue` statement directly before `}`
-(`trailing_semicolon`).  Any other `;` before `}` is kept: `{ f(); }` and `{ f() }` differ.
-`st`: one flag per open bracket (the statement around it began with a jump keyword); `cur`: the
-current statement began with a jump keyword; `start`: the next token begins a statement (1: after
-`{` or `;`; 2: after `}`, where punctuation continues the expression); `lo`: last token emitted. -/
-def semiSep : List Bool → Bool → Nat → Tok → List Tok → List Tok
-  | _, _, _, _, [] => []
-  | st, cur, start, lo, t :: ts =>
+the `;` that ends a `return` / `break` / `continue` statement directly before `}`
+(`trailing_semicolon`), and the `;` after the last rule of a `macro_rules!` definition or the last
+item of a `lazy_static!` call (the two macro bodies the formatter re-punctuates).  Any other
+`;` before `}` is kept: `{ f(); }` and `{ f() }` differ.
+`st`: one pair per open bracket (the flags `cur`, `md` of the surroundings); `cur`: the current
+statement began with a jump keyword; `md`: directly inside the body of a `macro_rules!` definition / `lazy_static!` call;
+`start`: the next token begins a statement (1: after `{` or `;`; 2: after `}`, where punctuation
+continues the expression); `pend`: 1 after `macro_rules`, 2 after `macro_rules !` (and the name);
+`lo`: last token emitted. -/
+def semiSep : List (Bool × Bool) → Bool → Bool → Nat → Nat → Tok → List Tok → List Tok
+  | _, _, _, _, _, _, [] => []
+  | st, cur, md, start, pend, lo, t :: ts =>
     let cur := if start == 1 then isJumpKw t
       else if start == 2 then (if isJumpKw t then true else if isWordTok t then false else cur)
       else cur
-    if t.isOpen then t :: semiSep (cur :: st) false (if t.isO '{' then 1 else 0) t ts
+    let pend' := if t.isI kwMacroRules || t.isI kwLazyStatic then 1
+      else if pend == 1 && t.isP '!' then 2
+      else if pend == 2 && (t.isP '$' || t.cls == ['i'] || t.cls == ['r']) then 2
+      else 0
+    if t.isOpen then t :: semiSep ((cur, md) :: st) false (pend == 2) (if t.isO '{' then 1 else 0) 0 t ts
     else if t.isClose then
-      t :: semiSep st.tail (match st with | c :: _ => c | [] => false) (if t.isC '}' then 2 else 0) t ts
+      (match st with
+       | (c, m) :: st' => t :: semiSep st' c m (if t.isC '}' then 2 else 0) 0 t ts
+       | [] => t :: semiSep [] false false (if t.isC '}' then 2 else 0) 0 t ts)
     else if t.isP ';' then
-      (if headIs (·.isP ';') ts || lo.isO '{' || (cur && headIs (·.isC '}') ts) then semiSep st false 1 lo ts
-       else t :: semiSep st false 1 t ts)
-    else t :: semiSep st cur 0 t ts
+      (if headIs (·.isP ';') ts || lo.isO '{' || (cur && headIs (·.isC '}') ts) || (md && headIs (·.isClose) ts) then
+         semiSep st false md 1 0 lo ts
+       else t :: semiSep st false md 1 0 t ts)
+    else t :: semiSep st cur md 0 pend' t ts
 
 def isTupleKw (t : Tok) : Bool :=
   t.isI ['l','e','t'] || t.isI kwIn || t.isI kwReturn || t.isI ['m','a','t','c','h'] || t.isI ['i','f'] ||
@@ -970,12 +984,17 @@ def oneTuple : Nat → List Tok → Bool
     else if d == 0 && t.isP ',' then headIs (·.isClose) ts
     else oneTuple d ts
 
+/-- `( .. , )`: the rest pattern with a trailing comma (the same pattern as `(..)`) -/
+def restPat : List Tok → Bool
+  | a :: b :: c :: _ => a.isP '.' && b.isP '.' && c.isP ','
+  | _ => false
+
 /-- Rule 1 for `,`: directly before a closer or before the `>` of a generic list — except the `,` of
 a 1-tuple `(x,)` (tag 3: a parenthesis that is not an argument list and holds exactly that one
 top-level comma), which is part of the program.
 Rule 6: `,` directly after `}` (block-bodied match arm). -/
 def ruleComma : Rule := fun enc _ p2 p1 t rest =>
-  if t.isO '(' && tupleStart p1 p2 && oneTuple 0 rest then some { out := [t], tag := 3 }
+  if t.isO '(' && tupleStart p1 p2 && oneTuple 0 rest && !restPat rest then some { out := [t], tag := 3 }
   else if t.isP ',' && enc == 3 && headIs (·.isClose) rest then none
   else if t.isP ',' && (headIs (fun x => x.isClose || x.isP '>') rest || p1.isC '}') then drop_ else none
 
@@ -1147,7 +1166,7 @@ def post (cfg : Cfg) (ts : List Tok) : List Tok :=
   let ts := runRule ruleEmpty ts
   let ts := runRule rulePipe ts
   let ts := closureSep 0 0 noTok ts
-  let ts := semiSep [] false 1 noTok ts
+  let ts := semiSep [] false false 1 0 noTok ts
   let ts := runRule ruleBlock ts
   let ts := runRule ruleComma ts
   let ts := onlyIf cfg.parens (runRule ruleParen) ts
